@@ -506,13 +506,44 @@ func ruleFetchBounded(r *Run, v *variant, rule string) {
 				n++
 				// a bound test against len(….Instructions) in this function before the fetch, or in the loop condition of the caller
 				bounded := false
+				// the comparison with its direction: mentionsLen(side) — which side holds len(….Instructions)
+				mentionsLen := func(e ast.Expr) bool {
+					t := types.ExprString(e)
+					return strings.Contains(t, "len(") && strings.Contains(t, "Instructions")
+				}
+				// excludes(b): as a LEAVING guard, b is true for every index >= len  (idx >= len, len <= idx)
+				excludes := func(b *ast.BinaryExpr) bool {
+					return (b.Op == token.GEQ && mentionsLen(b.Y) && !mentionsLen(b.X)) || (b.Op == token.LEQ && mentionsLen(b.X) && !mentionsLen(b.Y))
+				}
+				// admits(b): as a CONTINUING condition, b is false for every index >= len  (idx < len, len > idx)
+				admits := func(b *ast.BinaryExpr) bool {
+					return (b.Op == token.LSS && mentionsLen(b.Y) && !mentionsLen(b.X)) || (b.Op == token.GTR && mentionsLen(b.X) && !mentionsLen(b.Y))
+				}
 				check := func(body ast.Node, before token.Pos) {
 					ast.Inspect(body, func(k ast.Node) bool {
-						if b, ok := k.(*ast.BinaryExpr); ok && (before == 0 || b.Pos() < before) {
-							switch b.Op {
-							case token.LSS, token.LEQ, token.GTR, token.GEQ:
-								if strings.Contains(types.ExprString(b), "len(") && strings.Contains(types.ExprString(b), "Instructions") {
-									bounded = true
+						switch x := k.(type) {
+						case *ast.IfStmt:
+							if before != 0 && x.End() > before {
+								// an enclosing if: its condition admits the fetch if it is a positive conjunct
+								if x.Body.Pos() <= before && before < x.Body.End() {
+									for _, c := range conjuncts(x.Cond) {
+										if b, ok := c.(*ast.BinaryExpr); ok && admits(b) {
+											bounded = true
+										}
+									}
+								}
+								return true
+							}
+							// a guard before the fetch that leaves
+							if b, ok := ast.Unparen(x.Cond).(*ast.BinaryExpr); ok && excludes(b) && terminates(x.Body.List) {
+								bounded = true
+							}
+						case *ast.ForStmt:
+							if x.Cond != nil && (before == 0 || (x.Body.Pos() <= before && before < x.Body.End())) {
+								for _, c := range conjuncts(x.Cond) {
+									if b, ok := c.(*ast.BinaryExpr); ok && admits(b) {
+										bounded = true
+									}
 								}
 							}
 						}
@@ -539,13 +570,17 @@ func ruleFetchBounded(r *Run, v *variant, rule string) {
 								return true
 							})
 							if callsIt {
-								check(fs.Cond, 0)
+								for _, c := range conjuncts(fs.Cond) {
+									if b, ok := c.(*ast.BinaryExpr); ok && admits(b) {
+										bounded = true
+									}
+								}
 							}
 							return true
 						})
 					}
 				}
-				r.check(bounded, rule, fmt.Sprintf("%s.%s:fetch-bounded#%d", v.rel, declName(fd), n), ix.Pos(), "an instruction is fetched only under a test of its index against the program length")
+				r.check(bounded, rule, fmt.Sprintf("%s.%s:fetch-bounded#%d", v.rel, declName(fd), n), ix.Pos(), "an instruction is fetched only where its index is known to be BELOW the program length (a leaving guard `idx >= len`, or a continuing condition `idx < len`)")
 				return true
 			})
 		}
